@@ -8,7 +8,7 @@ ABTI_global *gp_ABTI_global; static ABTI_global glob;
 #include <eventual.c>
 void h_create(void)
 {
-    gp_ABTI_global = &glob; int nbytes; VF_ASSUME(nbytes <= 64); ABT_eventual h = (ABT_eventual)16;
+    gp_ABTI_global = &glob; int nbytes; VF_ASSUME(nbytes <= 16); ABT_eventual h = (ABT_eventual)16;
     int r = ABT_eventual_create(nbytes, &h);
     if (r != ABT_SUCCESS) VF_ASSERT(h == (ABT_eventual)16 && (nbytes >= 0 || r == ABT_ERR_INV_ARG), "failure: handle untouched; negative size rejected");
     else { ABTI_eventual *e = (ABTI_eventual *)h; VF_ASSERT(e->ready == ABT_FALSE && e->nbytes == (size_t)nbytes && (nbytes == 0) == (e->value == NULL) && e->waitlist.p_head == NULL, "success: not ready, buffer iff nbytes > 0, nobody waiting");
@@ -19,7 +19,7 @@ void h_create(void)
 #include <futures.c>
 void h_create(void)
 {
-    gp_ABTI_global = &glob; uint32_t n; VF_ASSUME(n <= 8); ABT_future h = (ABT_future)16;
+    gp_ABTI_global = &glob; uint32_t n; VF_ASSUME(n <= 2); ABT_future h = (ABT_future)16;
     int r = ABT_future_create(n, NULL, &h);
     if (r != ABT_SUCCESS) VF_ASSERT(h == (ABT_future)16, "failure: handle untouched");
     else { ABTI_future *f = (ABTI_future *)h; VF_ASSERT(f->counter.val == 0 && f->num_compartments == n && (n == 0) == (f->array == NULL) && f->waitlist.p_head == NULL, "success: empty future");
